@@ -4,7 +4,8 @@ Domain : generated UODs (UodBuilder: 1-5 tags with units from every quantity or 
          volume, 1-4 commands with RegexNumber / RegexCategorical / RegexText / no-argument / default parsers or a hand-written,
          unanchored / partly anchored regex as in the project's own tests; arguments with text around a matching core)  x  generated
          methods using those names with valid and near-miss names, arguments and units (Watch/Alarm conditions, Simulate,
-         UOD commands, Wait/Pause/Hold/Base/Run counter ...).
+         UOD commands, Wait/Pause/Hold/Base/Run counter ..., names that exist in an engine registry but are not P-code
+         instructions such as Start / Unpause / system tag names).
 System : the analyzer is fed exactly what the engine publishes: EngineMessageBuilder.create_uod_info().uod_definition
          (through its JSON wire form) -> lsp_analysis.build_tags / build_commands -> parse as lsp_analysis.analyze does ->
          SemanticCheckAnalyzer.  Lines the analyzer marks with an ERROR are removed (with their bodies) until the rest is
@@ -50,8 +51,9 @@ ASSUMPTIONS = [
     "only argument parsers the engine can publish are generated (regex based incl. hand-written regexes, none, default); a "
     "hand-written arg_parse_fn *function* is invisible to the analyzer by construction",
     "the cause of an engine error is read from the exception chain given to on_method_error (message patterns in c20_h.CAUSES)",
-    "an unknown unit in a condition ('Invalid unit') is counted as incompatible units; a non-numeric comparison value, a failing "
-    "Simulate conversion and every other cause are counted but not judged",
+    "inside the evaluation of a condition ('Error evaluating condition: ...') an unknown unit and a failing conversion between "
+    "the tag's unit and the limit's unit count as incompatible units; a non-numeric comparison value, a failing Simulate "
+    "conversion and every other cause are counted but not judged",
     "the method text is parsed for the analyzer exactly as lsp_analysis.analyze does (ParserMethod.from_pcode, no UOD command names)",
 ]
 TIERS = {"quick": {"examples": 3000, "budget_s": 100, "max_lines": 8},
